@@ -485,6 +485,24 @@ func init() {
 		s := e.sortOfT(args[0].Typ)
 		return one(st, Val{K: kTerm, Typ: rt, Sort: sInt, T: tIte(tEq(t, "none_"+s), "0", tApp("val_"+s, t))})
 	}
+	// ---- time: instants as mathematical nanoseconds, durations as int64 ----
+	sbv2int := func(t string) string {
+		return fmt.Sprintf("(ite (bvslt %s (_ bv0 64)) (- (bv2nat (bvneg %s))) (bv2nat %s))", t, t, t)
+	}
+	intrinsicsByName["(time.Time).Add"] = func(e *Env, st *State, args []Val, rt types.Type, c *ssa.CallCommon) []Out {
+		e.D.declSort("Time")
+		e.notes["time.Time.Add: mathematical (no saturation at the ends of the representable range)"]++
+		return one(st, Val{K: kTerm, Typ: args[0].Typ, Sort: "Time", T: tApp("+", e.term(st, args[0]), sbv2int(e.term(st, args[1])))})
+	}
+	intrinsicsByName["(time.Time).After"] = func(e *Env, st *State, args []Val, rt types.Type, c *ssa.CallCommon) []Out {
+		return one(st, boolVal(tApp(">", e.term(st, args[0]), e.term(st, args[1]))))
+	}
+	intrinsicsByName["(time.Time).Before"] = func(e *Env, st *State, args []Val, rt types.Type, c *ssa.CallCommon) []Out {
+		return one(st, boolVal(tApp("<", e.term(st, args[0]), e.term(st, args[1]))))
+	}
+	intrinsicsByName["(time.Time).Equal"] = func(e *Env, st *State, args []Val, rt types.Type, c *ssa.CallCommon) []Out {
+		return one(st, boolVal(tEq(e.term(st, args[0]), e.term(st, args[1]))))
+	}
 	// ---- codec ----
 	const cdc = "(github.com/cosmos/cosmos-sdk/codec.BinaryCodec)."
 	intrinsicsByName[cdc+"MustMarshal"] = func(e *Env, st *State, args []Val, rt types.Type, c *ssa.CallCommon) []Out {
@@ -575,7 +593,16 @@ func (e *Env) unmarshalInto(st *State, bz Val, target Val) {
 	}
 	cur := e.load(st, inner.Ptr)
 	s := e.sortOfT(cur.Typ)
-	u := e.D.uf("spec_pbunmarshal_"+ifaceShortName(cur.Typ), []string{sStr}, s, e.term(st, bz))
+	ct, zt := e.term(st, cur), e.term(st, e.zero(st, cur.Typ))
+	var u string
+	if ct == zt {
+		u = e.D.uf("spec_pbunmarshal_"+ifaceShortName(cur.Typ), []string{sStr}, s, e.term(st, bz))
+	} else {
+		// generated Unmarshal methods do not reset the target (ProtoCodec.Unmarshal calls msg.Unmarshal directly):
+		// repeated fields are appended to, so decoding into a used value is a function of the old value too
+		e.trusted["protobuf codec: Unmarshal into a non-zero value merges (a function of the old value and the bytes)"]++
+		u = e.D.uf("spec_pbmerge_"+ifaceShortName(cur.Typ), []string{s, sStr}, s, ct, e.term(st, bz))
+	}
 	e.store(st, inner.Ptr, e.wrapTerm(cur.Typ, u))
 }
 
